@@ -402,7 +402,7 @@ func RunCrashSysProgram(p *Program) *Result {
 		return &Result{Trouble: "node: " + err.Error() + "\n" + spec.Render()}
 	}
 	w := &CrashSysWorld{SysWorld: sw, prog: p, fired: map[int]bool{}}
-	w.Model = NewModel(QConfig{Backend: "sqlite", MaxDepth: spec.MaxDepth, DropPolicy: spec.DropPolicy})
+	w.Model = NewModel(sysQConfig(&spec))
 	w.Disk.Decide = w.decide
 	defer w.Close()
 	start := w.Clock.Peek()
